@@ -58,6 +58,20 @@ Theorem aliased_equals_out_of_place : forall (e : op R) (h : heap R) (x : ref),
 Proof. exact (aliased_eq_oop_gen Rplus_comm Rmult_comm R_add_zero). Qed.
 Print Assumptions aliased_equals_out_of_place.
 
+(* ... and so does the separate-out statement: the result is a function of the old x alone, for
+   every heap -- in particular over a poisoned carrier (option F with None = NaN/uninitialised,
+   every operation strict) a result without None is obtained even when out was None everywhere:
+   the old contents of out (and of every fresh temporary) are never read. *)
+Theorem separate_call_ok_any_carrier : forall (T : Type) (N : Num T) (S : Sqrt T)
+    (e : op T) (h : heap T) (x out : ref),
+  wfop (length x) e -> NoDup out -> below (next h) x -> below (next h) out -> dis x out ->
+  length x = length out ->
+  get (run_ip e x out h) out = pure e (get h x)
+  /\ get (run_ip e x out h) x = get h x
+  /\ (forall i, (i < next h)%nat -> ~ In i out -> mem (run_ip e x out h) i = mem h i).
+Proof. intros T N S; exact separate_gen. Qed.
+Print Assumptions separate_call_ok_any_carrier.
+
 Theorem diag_free_trees_need_no_shape_condition : forall (e : op R), no_diag e -> forall v, diag_ok e v.
 Proof. exact no_diag_ok. Qed.
 
@@ -87,6 +101,16 @@ Theorem proximal_convex_conj_aliased_ok : forall (sigma inv_sigma : sval R) (pro
   get (run_ip (o_convex_conj sigma inv_sigma prox) x x h) x
   = lin 1%R 1%R (scal (- 1)%R (mult_val sigma (pure prox (mult_val inv_sigma (get h x))))) (scal 1%R (get h x)).
 Proof. exact cc_alias_R. Qed.
+
+(* T1 at the aliased solver call sites (admm_linearized: x.lincomb(1, x, -tau/sigma, tmp_dom);
+   prox_tau_f(x, out=x) -- prox_dca / doubleprox_dc: f.proximal(gamma)(x.lincomb(1, x, gamma, grad), out=x)):
+   after the two statements x holds prox(a x + b d) of the OLD x, and d is untouched. *)
+Theorem solver_call_site_ok : forall (e : op R) (a b : R) (h : heap R) (x d : ref),
+  wfop (length x) e -> NoDup x -> below (next h) x -> below (next h) d -> dis d x ->
+  get (solver_step e a b x d h) x = pure e (lin a b (get h x) (get h d))
+  /\ get (solver_step e a b x d h) d = get h d.
+Proof. exact solver_step_gen. Qed.
+Print Assumptions solver_call_site_ok.
 
 (* T2.  "The value prox(x) would have returned": the value-level functions are the familiar
    closed forms.  proximal_l1 (scalar step, no data term) is soft thresholding, written as
